@@ -205,3 +205,9 @@ void vf_harness(void) { XmlCodec_encode(); VF_CANARY(); }
     planted=[('enc', r'if \(g_nch == 0\)', 'if (g_nch == 0 || (CHILD_ISTEXT(0) && nondet_bool()))')],
 )
 UNITS += [encode_unit]
+
+# replay: step / structure units have no direct native input; the driver's battery (parent links after decoding mixed documents, encode->decode of generated trees,
+# every byte in text and attribute values) runs on the real library instead
+for _u in UNITS:
+    if not _u.replay:
+        _u.replay = replay.battery('C07/driver.cpp', ['battery'])
